@@ -9,8 +9,8 @@ set_option linter.unusedSimpArgs false
 set_option linter.unusedVariables false
 
 /-- what `merge_clusters(ss, cluster_forest)` does to a well-formed state -/
-structure MergeSpec (m : Nat) (sy : Vec) (sPar : Nat → Int) (rep : Nat → Nat) (ss : List Nat)
-    (rt : Int) (sPar' : Nat → Int) (forest' : List Cluster) (rep' d' : Nat → Nat) : Prop where
+structure MergeSpec (m : Nat) (sy : Vec) (sPar : Nat → Int) (rep : Nat → Nat) (forest : List Cluster)
+    (ss : List Nat) (rt : Int) (sPar' : Nat → Int) (forest' : List Cluster) (rep' d' : Nat → Nat) : Prop where
   uf : UFInv m sPar' rep' d'
   fi : FInv m sy sPar' rep' forest'
   live_mono : ∀ i, sPar i ≠ -1 → sPar' i ≠ -1
@@ -20,6 +20,16 @@ structure MergeSpec (m : Nat) (sy : Vec) (sPar : Nat → Int) (rep : Nat → Nat
   none : (∀ s, s ∈ ss → sPar s = -1) → rt = -1 ∧ ∀ i, sPar' i = -1 ↔ sPar i = -1
   frame : ∀ i, sPar i ≠ -1 → rep' i = rep i ∨ ∃ s, s ∈ ss ∧ sPar s ≠ -1 ∧ rep s = rep i
   newlive : ∀ i, sPar i = -1 → sPar' i ≠ -1 → i ∈ ss
+  /-- boundary lists are kept (in the record of the new root of their tree) -/
+  bnd_keep : ∀ c, c ∈ forest → ∀ x, x ∈ c.bnd →
+    ∃ c', c' ∈ forest' ∧ c'.root = rep' c.root ∧ x ∈ c'.bnd
+  /-- a fresh stabilizer that joins a tree brings itself into the boundary list -/
+  bnd_fresh : ∀ s, s ∈ ss → sPar s = -1 → sPar' s ≠ -1 →
+    ∃ c', c' ∈ forest' ∧ c'.root = rep' s ∧ hashS s ∈ c'.bnd
+  /-- and nothing else enters a boundary list -/
+  bnd_src : ∀ c', c' ∈ forest' → ∀ x, x ∈ c'.bnd →
+    (∃ c, c ∈ forest ∧ x ∈ c.bnd ∧ rep' c.root = c'.root) ∨
+    (∃ s, s ∈ ss ∧ sPar s = -1 ∧ sPar' s ≠ -1 ∧ x = hashS s ∧ rep' s = c'.root)
 
 theorem clsCnt_fresh_congr (m : Nat) (sy : Vec) (sp sp' : Nat → Int) (rp : Nat → Nat) (x : Nat)
     (h : ∀ i, sp' i = -1 ↔ sp i = -1) : clsCnt m sy sp' rp x = clsCnt m sy sp rp x := by
@@ -33,7 +43,7 @@ theorem clsCnt_fresh_congr (m : Nat) (sy : Vec) (sp sp' : Nat → Int) (rp : Nat
 theorem mergeClusters_spec {m : Nat} {sy : Vec} {sPar : Nat → Int} {rep d : Nat → Nat}
     {forest : List Cluster} (U : UFInv m sPar rep d) (F : FInv m sy sPar rep forest)
     (ss : List Nat) (hss : ∀ s, s ∈ ss → s < m) (hnd : ss.Nodup) :
-    ∃ rep' d', MergeSpec m sy sPar rep ss (mergeClusters m sPar forest ss).1
+    ∃ rep' d', MergeSpec m sy sPar rep forest ss (mergeClusters m sPar forest ss).1
         (mergeClusters m sPar forest ss).2.1 (mergeClusters m sPar forest ss).2.2.1 rep' d' ∧
       (mergeClusters m sPar forest ss).2.2.2 = false := by
   have I := MInv_fold U F ss [] _ (MInv_init (sy := sy) (forest0 := forest) U) (by simpa using hnd)
@@ -52,8 +62,14 @@ theorem mergeClusters_spec {m : Nat} {sy : Vec} {sPar : Nat → Int} {rep d : Na
       have := forest_root F hkf
       rw [hall k hk] at this; omega
     simp only [hbig]
-    refine ⟨rep, d, ⟨I.uf, ⟨?_, ?_, ?_, ?_, ?_⟩, ?_, fun _ _ _ _ h => h, ?_, ?_, fun i _ => Or.inl rfl, ?_⟩,
-      I.bad⟩
+    have hkeepmem : ∀ c, c ∈ forest → c ∈ acc.forest := by
+      intro c hc
+      refine (I.f_mem c).mpr ⟨hc, ?_⟩
+      rintro ⟨k, hk, hkr⟩
+      have := forest_root F hc
+      rw [← hkr, hall k hk] at this; omega
+    refine ⟨rep, d, ⟨I.uf, ⟨?_, ?_, ?_, ?_, ?_⟩, ?_, fun _ _ _ _ h => h, ?_, ?_, fun i _ => Or.inl rfl, ?_,
+      ?_, ?_, ?_⟩, I.bad⟩
     · intro x
       rw [I.root_iff, ← F.roots_iff]
       constructor
@@ -71,6 +87,12 @@ theorem mergeClusters_spec {m : Nat} {sy : Vec} {sPar : Nat → Int} {rep d : Na
     · rintro ⟨s, hs, hlive⟩; exact absurd (hallfresh s hs) hlive
     · intro _; exact ⟨rfl, I.fresh_iff⟩
     · intro i hi hl; exact absurd ((I.fresh_iff i).mpr hi) hl
+    · intro c hc x hx
+      exact ⟨c, hkeepmem c hc, (U.root_rep _ (forest_root F hc)).symm, hx⟩
+    · intro s _ hs hl; exact absurd ((I.fresh_iff s).mpr hs) hl
+    · intro c' hc' x hx
+      have hc0 := ((I.f_mem c').mp hc').1
+      exact Or.inl ⟨c', hc0, hx, U.root_rep _ (forest_root F hc0)⟩
   | some b =>
     obtain ⟨hbcl, hbf⟩ := I.big_some b hbig
     have hbroot0 := forest_root F hbf
@@ -82,12 +104,12 @@ theorem mergeClusters_spec {m : Nat} {sy : Vec} {sPar : Nat → Int} {rep d : Na
       rcases I.cl_src b hbcl with ⟨_, s, hs, h1, h2⟩ | ⟨s, hs, h1, h2⟩
       · exact ⟨s, hs, h1, h2⟩
       · rw [h2] at hbroot0; simp [dummy] at hbroot0; rw [h1] at hbroot0; omega
-    have A0 : AInv m sy rep sPar acc.forest b.root
+    have A0 : AInv m sy rep sPar acc.forest b.root b.bnd
         (acc.clusters.eraseP (fun c => decide (c.root = b.root)))
         (acc.clusters.eraseP (fun c => decide (c.root = b.root))) acc.sPar rep d b := by
       refine ⟨I.uf, hbroot, fun _ _ _ _ h => h, fun i hi h => hi ((I.fresh_iff i).mp h), ?_, ?_, ?_,
         ?_, ?_, rfl, F.size_pos b hbf, ?_, fun k hk hk' => absurd hk hk', fun k hk => hk, ?_, ?_,
-        fun i _ => Or.inl rfl, ?_⟩
+        fun i _ => Or.inl rfl, ?_, ?_⟩
       · -- rem_ok
         intro k hk
         obtain ⟨hkc, hkb⟩ := (hmemo k).mp hk
@@ -121,9 +143,29 @@ theorem mergeClusters_spec {m : Nat} {sy : Vec} {sPar : Nat → Int} {rep d : Na
       · intro c hc heq
         exact ((I.f_mem c).mp hc).2 ⟨b, hbcl, heq.symm⟩
       · intro i hi hl; exact absurd ((I.fresh_iff i).mpr hi) hl
+      · intro x
+        constructor
+        · intro h; exact Or.inl h
+        · rintro (h | ⟨k, h1, h2, _⟩)
+          · exact h
+          · exact absurd h1 h2
     obtain ⟨rpF, dpF, A⟩ := AInv_fold _ _ _ _ _ A0
     simp only [hbig]
-    refine ⟨rpF, dpF, ⟨A.uf, ⟨?_, ?_, ?_, ?_, A.defect_live⟩, A.live_mono, A.coarse, ?_, ?_, ?_, ?_⟩, I.bad⟩
+    have hbF0 : rpF b.root = b.root := A.uf.root_rep _ A.b_root
+    have hmerged_mem : ∀ x, x ∈ (List.foldl absorb b
+        (acc.clusters.eraseP (fun c => decide (c.root = b.root)))).bnd ↔
+        (x ∈ b.bnd ∨ ∃ k, k ∈ acc.clusters.eraseP (fun c => decide (c.root = b.root)) ∧ x ∈ k.bnd) := by
+      intro x
+      rw [A.bnd_iff]
+      constructor
+      · rintro (h | ⟨k, h1, _, h3⟩)
+        · exact Or.inl h
+        · exact Or.inr ⟨k, h1, h3⟩
+      · rintro (h | ⟨k, h1, h3⟩)
+        · exact Or.inl h
+        · exact Or.inr ⟨k, h1, by simp, h3⟩
+    refine ⟨rpF, dpF, ⟨A.uf, ⟨?_, ?_, ?_, ?_, A.defect_live⟩, A.live_mono, A.coarse, ?_, ?_, ?_, ?_,
+      ?_, ?_, ?_⟩, I.bad⟩
     · -- roots_iff
       intro x
       rw [A.roots_iff]
@@ -192,5 +234,57 @@ theorem mergeClusters_spec {m : Nat} {sy : Vec} {sPar : Nat → Int} {rep d : Na
       · have := forest_root F hkf
         rw [hkr, hi] at this; omega
       · simp [dummy] at hkr; rw [← hkr]; exact hs
+    · -- bnd_keep
+      intro c hc x hx
+      by_cases hk : ∃ k, k ∈ acc.clusters ∧ k.root = c.root
+      · obtain ⟨k, hk, hkr⟩ := hk
+        have hkc : k = c := by
+          rcases I.cl_src k hk with ⟨hkf, _⟩ | ⟨s, _, hsf, rfl⟩
+          · exact eq_of_root_eq forest F.roots_nodup k c hkf hc hkr
+          · exfalso
+            have := forest_root F hc
+            rw [← hkr] at this; simp [dummy] at this; rw [hsf] at this; omega
+        subst hkc
+        refine ⟨(List.foldl absorb b (acc.clusters.eraseP (fun c => decide (c.root = b.root)))), List.mem_append.mpr (Or.inr (by simp)), ?_, ?_⟩
+        · rw [A.acc_root]
+          by_cases hkb : k.root = b.root
+          · rw [hkb, hbF0]
+          · exact (A.done k ((hmemo k).mpr ⟨hk, hkb⟩) (by simp)).2.symm
+        · rw [hmerged_mem]
+          by_cases hkb : k.root = b.root
+          · have : k = b := eq_of_root_eq forest F.roots_nodup k b hc hbf hkb
+            rw [← this]; exact Or.inl hx
+          · exact Or.inr ⟨k, (hmemo k).mpr ⟨hk, hkb⟩, hx⟩
+      · have hcf : c ∈ acc.forest := (I.f_mem c).mpr ⟨hc, hk⟩
+        refine ⟨c, List.mem_append.mpr (Or.inl hcf), ?_, hx⟩
+        exact (A.uf.root_rep _ ((A.roots_iff _).mpr (Or.inl ⟨c, hcf, rfl⟩))).symm
+    · -- bnd_fresh
+      intro s hs hsf _
+      have hd := I.cl_dummy s hs hsf
+      have hne : (dummy s).root ≠ b.root := by
+        intro h; simp [dummy] at h; rw [← h, hsf] at hbroot0; omega
+      have hdo := (hmemo _).mpr ⟨hd, hne⟩
+      refine ⟨(List.foldl absorb b (acc.clusters.eraseP (fun c => decide (c.root = b.root)))), List.mem_append.mpr (Or.inr (by simp)), ?_, ?_⟩
+      · rw [A.acc_root]
+        have := (A.done (dummy s) hdo (by simp)).2
+        simpa [dummy] using this.symm
+      · rw [hmerged_mem]
+        exact Or.inr ⟨dummy s, hdo, by simp [dummy]⟩
+    · -- bnd_src
+      intro c' hc' x hx
+      rcases List.mem_append.mp hc' with hc' | hc'
+      · have hc0 := ((I.f_mem c').mp hc').1
+        exact Or.inl ⟨c', hc0, hx,
+          A.uf.root_rep _ ((A.roots_iff _).mpr (Or.inl ⟨c', hc', rfl⟩))⟩
+      · simp at hc'; subst hc'
+        rw [A.acc_root]
+        rcases (hmerged_mem x).mp hx with h | ⟨k, hk, hkx⟩
+        · exact Or.inl ⟨b, hbf, h, hbF0⟩
+        · obtain ⟨hkc, hkb⟩ := (hmemo k).mp hk
+          have hdone := A.done k hk (by simp)
+          rcases I.cl_src k hkc with ⟨hkf, _⟩ | ⟨s, hs, hsf, rfl⟩
+          · exact Or.inl ⟨k, hkf, hkx, hdone.2⟩
+          · simp [dummy] at hkx hdone
+            exact Or.inr ⟨s, hs, hsf, hdone.1, hkx, hdone.2⟩
 
 end Panqec.UF
